@@ -46,6 +46,7 @@ def run(ck, F, tier):
     ck.rule("H1", "header <-> exports agreement")
     ck.rule("H2", "wrapper wiring")
     ck.rule("H4", "argument fidelity: each constructor hands the caller's C strings to the parsers unchanged (only lossless/lossy-UTF-8 conversions on the way), so what the parsers reject the constructor rejects")
+    ck.rule("H5", "the encoder constructors refuse singular last columns: the row operations and the pivot range of linalg::gauss_reduction, on which Encoder::from_h's error rests (the rule C02-S5, run here)")
     ck.rule("H3", "constructors: null on error, no panics on malformed input")
     hdr = os.path.join(REPO, "include", "ldpc_toolbox.h")
     if not os.path.exists(hdr):
@@ -329,6 +330,10 @@ def run(ck, F, tier):
     NOI = r"(?!c_api::|simulation::puncturing::Puncturer::new|cli::ber::parse_puncturing_pattern).*"
     Audit(ck, F, "H3", "c_api::decoder::Decoder::new", ["alist", "implementation", "puncturing"], reviewed=rev, no_inline=NOI, contracts="NONE", entry_label="Decoder::new").run()
     Audit(ck, F, "H3", "c_api::encoder::Encoder::new", ["alist", "puncturing"], reviewed=dict(rev), no_inline=NOI, contracts="NONE", entry_label="Encoder::new").run()
+    # H5: "null for matrices whose last columns are singular" rests on gauss_reduction reporting every singular matrix
+    from ..report import RuleAlias
+    from ..linalg_rules import row_operation_width
+    row_operation_width(RuleAlias(ck, "H5"), F, "S5", "linalg::gauss_reduction")
     pattern_non_empty(ck, F, "H3")
     argument_fidelity(ck, F, exports)
 
